@@ -235,6 +235,14 @@ def run(rep: Report) -> None:
                 n_reduce += 1
                 seq = n.args[1]
                 names = {x.id for x in ast.walk(seq) if isinstance(x, ast.Name)}
+                # a list built element for element from another one (no filter) is empty exactly when that one is
+                for _ in range(3):
+                    for d_ in ast.walk(fi.node):
+                        if isinstance(d_, ast.Assign) and len(d_.targets) == 1 and isinstance(d_.targets[0], ast.Name) and d_.targets[0].id in names \
+                                and isinstance(d_.value, (ast.ListComp, ast.GeneratorExp)) and len(d_.value.generators) == 1 and not d_.value.generators[0].ifs:
+                            names |= {x.id for x in ast.walk(d_.value.generators[0].iter) if isinstance(x, ast.Name)}
+                if isinstance(seq, (ast.ListComp, ast.GeneratorExp)) and len(seq.generators) == 1 and not seq.generators[0].ifs:
+                    names |= {x.id for x in ast.walk(seq.generators[0].iter) if isinstance(x, ast.Name)}
                 cfg = cfg or CFG(fi.node)
                 dom = cfg.dominators()
                 cn = cfg.node_of(n)
